@@ -216,6 +216,18 @@ def rule_h3(repo, col, root):
             else:
                 raise AnalysisError("%s.__eq__: shape not understood: %s" % (cname, es))
             col.decide("H3", m, h.node, ok, "%s: %s" % (cname, why), why, construct="def %s.__hash__: %s vs __eq__: %s" % (cname, hs, es), function="%s.__hash__" % cname)
+            # a class whose equality is its printed form and whose hash is a stored field: the printed form must be that field printed as it is -
+            # a __str__ that normalises (rounds, formats) merges values whose hashes differ; normalisation belongs where the field is stored
+            if es.startswith("str(") and hs in ("hash(self.functor)", "hash(self.name)", "hash(self.value)"):
+                field = hs[len("hash("):-1]
+                sm = c.methods.get("__str__") or c.methods.get("__repr__")
+                if sm is not None:
+                    se = single_return_expr(sm)
+                    plain = se is not None and norm(se) in ("str(%s)" % field, "%s" % field, "repr(%s)" % field, "'%%s' %% %s" % field)
+                    col.decide("H8", m, sm.node, plain, "%s: the printed form (the equality key) is the hashed field %s printed unchanged" % (cname, field),
+                               "%s.__eq__ compares printed forms and %s.__hash__ hashes %s, but %s does not print that field unchanged: it normalises the value after the hash is taken, so "
+                               "values that print alike (0.1+0.2 and 0.3 rounded to 15 digits) are equal with different hashes - dict and set look-ups and tabling miss them" % (
+                                   cname, cname, field, sm.qualname), construct="def %s: printed form is not the hashed field as stored" % sm.qualname, function=sm.qualname)
 
 
 def _value_compare(e, a, b):
@@ -398,6 +410,7 @@ def run(repo, col):
     col.rule("H4", "equality and unification use the same functor projection")
     col.rule("H5", "the class test inside __eq__ is symmetric")
     col.rule("H6", "constant values are compared together with their type (1 vs 1.0)")
+    col.rule("H8", "printed-form equality: the printed form is the hashed field as stored")
     root, classes = hierarchy(repo)
     col.floor("term_hierarchy_classes", len(classes), 10)
     rule_h1(repo, col, classes)
